@@ -13,6 +13,7 @@ TIERS = {
     "config": ({"n": 60}, {"n": 3000}),
     "hook": ({"n": 600}, {"n": 20000}),
     "migrate": ({"n": 120}, {"n": 5000}),
+    "proto": ({"n": 2}, {"n": 24}),
     "own": ({"n": 120}, {"n": 4000}),
     "matrix": ({"shards": 4, "histories": 4, "length": 40}, {"shards": 16, "histories": 40, "length": 60}),
     "world": ({"shards": 8, "histories": 30, "length": 60}, {"shards": 16, "histories": 500, "length": 80}),
@@ -70,6 +71,20 @@ def get_stream(name, seed, tier, b, fp):
             with cf.ThreadPoolExecutor(max_workers=16) as ex:
                 for prefix, t, t2 in ex.map(shard_world, jobs):
                     meta["prefixes"].append(prefix); meta["gen_s"] += t; meta["model_s"] += t2
+        elif name == "proto":
+            # samples and expected results are evaluated inside Coq on the regenerated tables; the harness decodes and
+            # re-encodes the same bytes with the bindings' prost code
+            rc, out, _ = build.coq_make("Proto/Cases.vo Gen/ProtoTables.vo")
+            if rc != 0:
+                raise RuntimeError("Proto/Cases.vo does not build: " + out[-1500:])
+            text, model_text, info = streams.gen_proto(seed, **params)
+            prefix = os.path.join(d, "s0")
+            open(prefix + ".ops", "w").write(text)
+            open(prefix + ".model", "w").write(model_text)
+            rc, out, t = run([b.exe["miniwasm"], "proto", prefix + ".ops", prefix + ".impl"], timeout=3000)
+            if rc != 0:
+                raise RuntimeError("harness proto run failed: " + out[-2000:])
+            meta["prefixes"].append(prefix); meta["gen_s"] = t; meta["model_s"] = info["coq_s"]; meta["info"] = info
         else:
             gen = getattr(streams, "gen_" + name)
             text, info = gen(seed, **params)
@@ -130,6 +145,11 @@ def run_ops(b, ops_lines, tag, variant="default"):
     d = os.path.join(WORK, "replay"); os.makedirs(d, exist_ok=True)
     p = os.path.join(d, "%s-%d" % (tag, os.getpid()))
     open(p + ".ops", "w").write("\n".join(ops_lines) + "\n")
+    if ops_lines and ops_lines[0].startswith("cfg proto"):
+        rc, out, _ = run([b.exe["miniwasm"], "proto", p + ".ops", p + ".impl"], timeout=600)
+        if rc != 0:
+            raise RuntimeError("harness proto run failed: " + out[-2000:])
+        return open(p + ".impl").read().splitlines(), streams.proto_eval(ops_lines)
     rc, out, _ = run([b.exe[variant], "run", p + ".ops", p + ".impl"], timeout=600)
     if rc != 0:
         raise RuntimeError("harness run failed: " + out[-2000:])
